@@ -437,6 +437,7 @@ OCTET_STRING_decode_ber(const asn_codec_ctx_t *opt_codec_ctx,
 			if(type_variant == ASN_OSUBV_BIT
 			&& sel->bits_chopped == 0) {
 				/* Put the unused-bits-octet away */
+				if(*(const uint8_t *)buf_ptr > 7) RETURN(RC_FAIL);
 				st->bits_unused = *(const uint8_t *)buf_ptr;
 				APPEND(((const char *)buf_ptr+1), (len - 1));
 				sel->bits_chopped = 1;
@@ -468,6 +469,7 @@ OCTET_STRING_decode_ber(const asn_codec_ctx_t *opt_codec_ctx,
 		if(size < (size_t)ctx->left) {
 			if(!size) RETURN(RC_WMORE);
 			if(type_variant == ASN_OSUBV_BIT && !ctx->context) {
+				if(*(const uint8_t *)buf_ptr > 7) RETURN(RC_FAIL);
 				st->bits_unused = *(const uint8_t *)buf_ptr;
 				ctx->left--;
 				ADVANCE(1);
@@ -480,6 +482,7 @@ OCTET_STRING_decode_ber(const asn_codec_ctx_t *opt_codec_ctx,
 		} else {
 			if(type_variant == ASN_OSUBV_BIT
 			&& !ctx->context && ctx->left) {
+				if(*(const uint8_t *)buf_ptr > 7) RETURN(RC_FAIL);
 				st->bits_unused = *(const uint8_t *)buf_ptr;
 				ctx->left--;
 				ADVANCE(1);
